@@ -1522,6 +1522,23 @@ package desync
 //@   ghost@after:isTempFile $istmp = $r0
 //@   oncall Remove: requires @C16 $istmp && $arg0 == path
 
+//# C06 / C08 (SFTP): an object is uploaded into a temporary file next to its final name and renamed over it; success is
+//# reported only if the rename to exactly that name succeeded, the data went into the temporary file that is renamed,
+//# and a failed copy removes that temporary file (the final name is never written to directly)
+//@ ghost var $sfRenamed bool
+//@ ghost var $sfTmp string
+//@ func (s *SFTPStoreBase) StoreObject
+//@   prop C06 C08
+//@   safety none
+//@   ghost@entry $sfRenamed = false
+//@   ghost@after:Create $sfTmp = $a0
+//@   ghost@after:PosixRename $sfRenamed = $r0 == nil
+//@   label retry: invariant !$sfRenamed
+//@   oncall Create: requires $arg0 == tmpfile
+//@   oncall PosixRename: requires $arg0 == tmpfile && $arg1 == name && $sfTmp == tmpfile
+//@   oncall Remove: requires $arg0 == tmpfile
+//@   ensures r0 == nil ==> $sfRenamed
+
 //# F40: names of the temporary files an upload writes to before it renames (chunk file name + a random number). What is
 //# recognised as one is longer than any chunk file name of this store's format, so it is never an own-format chunk file
 //@ func (s *SFTPStoreBase) isTempFile
